@@ -42,6 +42,9 @@ pub mod syscalls {
 }
 use syscalls::Error as SyscallError;
 //@item src/error.rs :: enum ErrorKind | sub.ErrorKind
+impl ErrorKind {
+//@use error.ErrorKind.errno
+}
 impl Error {
 //@use error.Error.kind
 }
@@ -81,6 +84,8 @@ impl Copy for ProcfsBase {}
 #[verifier::external_body]
 pub fn probe_is_subset(inner: &OwnedFd) -> bool { unimplemented!() }
 
+/// rigid: the base the caller of the ProcfsHandle operation named
+pub uninterp spec fn requested_procfs_base() -> ProcfsBase;
 //@item src/procfs.rs :: struct ProcfsHandle | sub.ProcfsHandle
 //@prove procfs.verify_is_procfs
 //@prove procfs.verify_same_mnt
@@ -96,8 +101,10 @@ impl ProcfsHandle {
     pub closed spec fn inner_id(&self) -> int { self.inner.id() }
 //@prove procfs.ProcfsHandle.verify_same_procfs_mnt
 //@prove procfs.ProcfsHandle.open_base
-//@prove procfs.ProcfsHandle.open
-//@prove procfs.ProcfsHandle.readlink
+//@prove procfs.ProcfsHandle.open u14
+//@use procfs.ProcfsHandle.open fallback u14 as=open_nofollow_fallback
+//@prove procfs.ProcfsHandle.readlink u14
+//@use procfs.ProcfsHandle.readlink probe u14 as=readlink_probe
 //@prove procfs.ProcfsHandle.open_follow u14
 //@prove procfs.ProcfsHandle.try_from_fd
 //@prove procfs.ProcfsHandle.new_fsopen
